@@ -83,6 +83,13 @@ partial def loop (h : IO.FS.Stream) (out : IO.FS.Stream) (s : H) : IO Unit := do
       let r2 := step r.1 .settle
       out.putStrLn (outLine r2.1 (r.2 ++ r2.2))
       loop h out r2.1
+    | ["cancelrace", raw, k, st, e] =>
+      -- the connection reports a state (hello-ok; error) while CancelPairingWithSKI is under way: the update, then the cancel
+      let r1 := step s (.connUpdate (uh k) (st.toNat?.getD 0) (e == "1"))
+      let r := step r1.1 (.cancel (uh raw))
+      let r2 := step r.1 .settle
+      out.putStrLn (outLine r2.1 (r1.2 ++ r.2 ++ r2.2))
+      loop h out r2.1
     | _ =>
     match parseEv toks with
     | some e =>
